@@ -162,7 +162,7 @@ KfSplit(site, Correct, Defect) ==
 ---------------------------------------------------------------------------
 (* Primitive matchers (src/primitive.rs): one action                       *)
 
-LeafOps == {"just", "any", "oneof", "noneof", "sel", "end", "empty", "cust", "cfgjust", "cfgjustr", "tree", "anyr", "selr", "newline"}
+LeafOps == {"just", "any", "oneof", "noneof", "sel", "end", "empty", "cust", "ext", "cfgjust", "cfgjustr", "tree", "anyr", "selr", "newline"}
 VIn(lo, hi) == <<"In", lo, hi>>                \* the inner input of a group token: a flat range
 
 (* consume up to k tokens from cursor c: <<new cursor, tokens consumed>> *)
@@ -220,7 +220,9 @@ LeafRes(g, c, ctx) ==
          ELSE [ok |-> FALSE, adv |-> 1, nc |-> c + 1, val |-> VU, exp |-> {"x:newline"}, found |-> t, fs |-> c, fe |-> c + 1, user |-> TRUE]
     \* select_ref! { Tok::Group(xs) => inner input }: a group token yields its inner input
     [] o = "tree" -> oneTok(t = "(", VIn(c + 1, Nxt(c) - 1), {"else"})
-    [] o = "cust" ->
+    \* "ext" = Ext(T) with T: ExtParser whose `parse` and `check` are separate bodies (extension.rs): Ext::go runs one or
+    \* the other depending on the mode and files the error like Custom::go does
+    [] o \in {"cust", "ext"} ->
          \* custom(|inp| { k times inp.next() or Err; then Ok / Err }): fails WITHOUT rewinding
          LET a == AdvK(c, g[2], 0)
              k == a[2]
@@ -240,7 +242,7 @@ ALeaf ==
              THEN \* Custom::go: add_alt_err(before, err); cursor stays where the closure left it
                   Return(ErrRet, r.nc, sec, insp + r.adv,
                          AddAltErr(Ety, alt, cur, Norm(Ety, MkErr(sp[1], sp[2], r.found, r.exp,
-                                                                IF Op(f.g) = "cust" THEN "cu" ELSE "", <<>>))))
+                                                                IF Op(f.g) \in {"cust", "ext"} THEN "cu" ELSE "", <<>>))))
              ELSE \* span_since(before); rewind(before); add_alt(..) at the rewound cursor
                   Return(ErrRet, r.nc, sec, insp + r.adv,
                          AddAlt(Ety, alt, r.nc, r.exp, r.found, sp[1], sp[2]))
